@@ -845,6 +845,10 @@ pub enum Op {
         module_specifier: ConstantIndex,
     },
 
+    /// Re-export every named export of a module (all but `default`) under its own name.
+    /// Used for `export * from "module"`; explicit exports of the current module win.
+    ExportAll { module_specifier: ConstantIndex },
+
     /// Re-export from another module: exports[export_name] = { from: source_module, key: source_key }
     /// Used for `export { foo } from "./bar"`
     ReExport {
